@@ -81,14 +81,20 @@ def trim : Nat → Nat → Int → Nat × Int
   | 0, n, s => (n, s)
   | k + 1, n, s => trim k (n / 10 ^ 19) (max (s - 19) (-(2 ^ 63)))
 
-/-- `to_f64` of `sign · n · 10^-scale`; the result is the full bit pattern -/
-def toF64 (neg : Bool) (n : Nat) (scale : Int) : Nat :=
+/-- the same estimate in exact integer arithmetic: `floor((bits + 1) · log10 2)` with `log10 2` to 36
+    places (the `f64` product can differ from it only when it lands within an ulp of an integer) -/
+def digitCountInt (bits : Nat) : Nat :=
+  (bits + 1) * 301029995663981195213738894724493027 / 10 ^ 36
+
+/-- `to_f64` of `sign · n · 10^-scale` with the digit estimate `dc` as a parameter; the result is the
+    full bit pattern -/
+def toF64With (dc : Nat → Nat) (neg : Bool) (n : Nat) (scale : Int) : Nat :=
   let sgn : Nat := if neg then 2 ^ 63 else 0
   if n == 0 then 0
   else if scale == 0 then sgn + ofNat n
   else
     let bits := n.log2 + 1
-    let digitCount := digitCountF64 bits
+    let digitCount := dc bits
     let iter := (digitCount - 25) / 19
     let (m, sc) := trim iter n scale
     if sc < -(2 ^ 31 - 1) || sc > 2 ^ 31 - 1 + 1 then
@@ -102,5 +108,15 @@ def toF64 (neg : Bool) (n : Nat) (scale : Int) : Nat :=
     else
       -- "{int}e{exp}".parse::<f64>() : correctly rounded
       sgn + rne m (10 ^ sc.toNat)
+
+/-- number of trimming rounds `to_f64` performs on `n` under the digit estimate `dc` -/
+def trimRounds (dc : Nat → Nat) (n : Nat) : Nat := (dc (n.log2 + 1) - 25) / 19
+
+/-- the trimming leaves at least 25 digits (hypothesis of the tolerance theorem) -/
+def trimKeeps25 (dc : Nat → Nat) (n : Nat) : Bool :=
+  trimRounds dc n == 0 || decide (10 ^ (19 * trimRounds dc n + 24) ≤ n)
+
+/-- `to_f64` as the code computes it: the digit estimate is the `f64` product -/
+def toF64 (neg : Bool) (n : Nat) (scale : Int) : Nat := toF64With digitCountF64 neg n scale
 
 end BigDec.F64
